@@ -3,7 +3,7 @@
 # properties anchored in the files it touches; every line should read "exit 0" (an alarm here is a false alarm).
 cd "$(dirname "$0")/.."
 checks_for() { case "$1" in
-  agg) echo "C07 C01 C11";; agg2) echo "C07 C01 C11";; queue) echo "C04 C05 C09 C13 C15 C19 C10";; tree) echo "C18 C08 C12 C02 C19 C03";;
+  agg) echo "C07 C01 C11";; agg2) echo "C07 C01 C11";; stats2) echo "C07 C01 C11";; io2) echo "C09 C10 C03 C13 C12";; runner2) echo "C02 C03 C10 C16 C08";; server2) echo "C15 C04 C05 C13 C06";; queue) echo "C04 C05 C09 C13 C15 C19 C10";; tree) echo "C18 C08 C12 C02 C19 C03";;
   dist) echo "C06 C14 C15 C16 C17 C20";; esac; }
 for g in refactors/*/; do g=$(basename "$g"); for p in refactors/$g/*.diff; do
   echo "== $g/$(basename $p)"; tools/try_refactor.sh "$p" $(checks_for $g) 2>&1 | grep -E "^check|APPLY" | cut -c1-200
